@@ -2,6 +2,8 @@
 //! a [`DeviceDescription`] into a simulated [`Device`].
 //!
 //! Nothing here is required by `simnet` itself; it is a convenience layer for tests and demos.
+//! [`od_from_description`] derives the PDO assignment / mapping objects of a CoE object dictionary
+//! from a [`DeviceDescription`], so that the EEPROM and the dictionary of a device agree.
 //!
 //! Simplifications: identities, strings and memory layouts are plausible but invented unless stated
 //! otherwise; the process data of the simulated devices is plain memory (inputs are whatever a test
@@ -353,4 +355,33 @@ pub fn build_coe_device(name: &str, opts: &BuildOptions) -> (Device, DeviceDescr
     let mut dev = build_device(name, &desc, opts);
     coe_default_od(dev.mailbox_mut().coe_mut(), &desc, name);
     (dev, desc)
+}
+
+/// Replace the PDO related objects of `coe` by what `desc` says: 0x1C00 (sync manager types),
+/// 0x1C10+k (PDO assignment of sync manager `k`: the indices of the RxPDOs/TxPDOs whose `sm` field is
+/// `k`, empty for mailbox and unused sync managers), one mapping object per PDO (0x16xx/0x1Axx:
+/// `index << 16 | sub << 8 | bit_len` per entry) and a zeroed application object per PDO entry.
+/// Everything else in the dictionary is kept.
+pub fn od_from_description(coe: &mut CoeServer, desc: &DeviceDescription) {
+    coe.od
+        .retain(|(i, _), _| !(0x1600..0x1C00).contains(i) && !(0x1C00..=0x1C2F).contains(i));
+    coe.set_u8(0x1C00, 0, desc.sync_managers.len().min(255) as u8);
+    for (k, sm) in desc.sync_managers.iter().enumerate().take(32) {
+        coe.set_u8(0x1C00, (k + 1) as u8, sm.usage);
+        let pdos: Vec<u16> = match sm.usage {
+            sm_usage::PD_OUT => desc.rx_pdos.iter().filter(|p| usize::from(p.sm) == k).map(|p| p.index).collect(),
+            sm_usage::PD_IN => desc.tx_pdos.iter().filter(|p| usize::from(p.sm) == k).map(|p| p.index).collect(),
+            _ => Vec::new(),
+        };
+        coe.set_array_u16(0x1C10 + k as u16, &pdos[..pdos.len().min(254)]);
+    }
+    for p in desc.rx_pdos.iter().chain(desc.tx_pdos.iter()) {
+        let entries: Vec<(u16, u8, u8)> = p.entries.iter().take(254).map(|e| (e.index, e.sub, e.bit_len)).collect();
+        coe.set_pdo_mapping(p.index, &entries);
+        for e in &p.entries {
+            if e.index != 0 && !coe.od.contains_key(&(e.index, e.sub)) {
+                coe.set(e.index, e.sub, vec![0u8; usize::from(e.bit_len).div_ceil(8).max(1)]);
+            }
+        }
+    }
 }
